@@ -45,7 +45,7 @@ def _nontrivial(fields):
     return False  # G and S are glue families
 
 
-def run(ctx, res):
+def _run_pure(ctx, res):
     ok, log = C.go_build_pure()
     if not ok:
         res.violation("corr:harness-build", "the harness does not build against /repo",
@@ -164,3 +164,23 @@ def run(ctx, res):
         res.violation("c14:" + C.sha(inp), what.get(f[0], "disagreement"),
                       dict(kind="failing-input", cases=[dict(input=inp, expected=m["expected"], got=m["got"])],
                            replay_cmd="./check C14 --replay <this file>"))
+
+
+def run(ctx, res):
+    """The pure error families, plus the callback direction: an *Error returned by a client's OnCallback handler reaches
+    the caller of Server.Callback with its code and message (family cli:c09 of the client harness: the reply the client
+    sends for a failed callback is the model's CbErr code/message, byte for byte)."""
+    if ctx.get("replay"):
+        with open(ctx["replay"]) as f:
+            fam = json.load(f).get("family", "")
+        if str(fam).startswith("cli:"):
+            from . import clilib
+            return clilib.run_family(ctx, res, "cli:c09")
+        return _run_pure(ctx, res)
+    from . import clilib
+    clilib.run_family(ctx, res, "cli:c09", n_quick=900, n_thorough=12000)
+    ev2, dn2, extra2 = res.evaluations, res.distinct_nontrivial, dict(res.extra)
+    _run_pure(ctx, res)
+    res.evaluations += ev2
+    res.distinct_nontrivial += dn2
+    res.extra["callback_direction"] = extra2
